@@ -1,0 +1,20 @@
+//go:build verif
+
+package trusteddealer
+
+// Contracts for the deductive checker in /verif (comment-only; compiled only under the verif tag).
+
+// Trusted dealing (C03, C07): one random Feldman dealing from the caller's reader; EVERY dealt share becomes a shard
+// built by the validating constructor from that share, the dealing's single verification vector and the scheme's MSP
+// (so all shards report the same public data and each private share was checked against it).
+//@ func Deal
+//@   property C03, C07
+//@   uses reader
+//@   opt trustpre=NewBaseShard
+//@   ghostvar sh map[int]V
+//@   ensures (group == nil || accessStructure == nil || prng == nil) ==> err != nil
+//@   ensures err == nil ==> drawn(box(dealOutput), old(shk(prng)))
+//@   ensures err == nil ==> forall a Int :: 0 <= a && a < seqlen(dealOutput.Shares().Iter()) ==> sh[a] == res(mpc.NewBaseShard(seqat2(dealOutput.Shares().Iter(), a), dealOutput.VerificationMaterial(), scheme.MSP()), 0) && res(mpc.NewBaseShard(seqat2(dealOutput.Shares().Iter(), a), dealOutput.VerificationMaterial(), scheme.MSP()), 1) == nil
+//@   loop range(dealOutput.Shares().Iter())
+//@     invariant forall a Int :: 0 <= a && a < $i ==> sh[a] == res(mpc.NewBaseShard(seqat2(dealOutput.Shares().Iter(), a), dealOutput.VerificationMaterial(), scheme.MSP()), 0) && res(mpc.NewBaseShard(seqat2(dealOutput.Shares().Iter(), a), dealOutput.VerificationMaterial(), scheme.MSP()), 1) == nil
+//@   ghostset before "shards.Put(id, shard)": sh[$i] = shard
